@@ -1,23 +1,137 @@
 //! C12 — builtins are total and agree with simple reference models.
 //!
-//! Every name in the live registry is called in-process through
-//! `BuiltinRegistry::get_implementation(name)` on arguments generated from its *declared*
-//! parameter `TypeSpec`, biased to boundary magnitudes; the same call goes to the Lean model
-//! (`qm_c12`). Oracle on the implementation: no panic, ever; and agreement with the model, whose
-//! answers are the reference (theorems `C12.*` relate it to the plain specification).
+//! Every name in the live pure registry (integer, binary, vector families) is called in-process
+//! through `BuiltinRegistry::get_implementation(name)` under `catch_unwind` and compared with the
+//! Lean model `qm_c12` (`callBuiltin`), whose answers are the reference (theorems `C12.*` relate it
+//! to the plain specification). Oracles evaluated on the implementation itself:
+//!   * no panic, ever;
+//!   * shape independence: the same call with every binary argument rebuilt as a random rope of
+//!     equal content (chains of the real constructor builtins binary_new / binary_slice /
+//!     binary_concat / binary_repeat, or the `BinaryData` smart constructors directly) must give
+//!     the same result;
+//!   * arguments are not modified by the call (in-place flattening by `materialize` must be
+//!     content preserving);
+//!   * agreement with the model on every call (flat and rope-shaped);
+//!   * for a sample, the same call through a compiled `[args] __name__` program.
+//! Stages: regression corpus (corpus/C12/*.txt, the F1–F4 reproducers first) → generated stream
+//! per builtin (domain-biased + TypeSpec-driven + malformed) → maximal-size binaries (lazy ropes,
+//! O(1) builtins) → compiled-program sample → (thorough) the boundary stream again in a
+//! `--release` build, where overflow wraps silently instead of panicking.
 use num_bigint::BigInt;
+use num_traits::{Signed, Zero};
 use qverif::run::{Builtins, Exec};
 use qverif::{Ev, Model, Opts, Rng, catch, hex};
+use quiver_core::BinaryData;
 use quiver_core::builtins::{BuiltinResult, TypeSpec};
-use quiver_core::value::Value;
+use quiver_core::value::{Binary, Value};
 use serde_json::json;
+use std::rc::Rc;
+
+const MAX: usize = 16 * 1024 * 1024;
+const BIG: usize = 65536; // results longer than this are compared by digest
+
+// ---------------------------------------------------------------------------------------------
+// arguments
+// ---------------------------------------------------------------------------------------------
+
+/// A rope expression: evaluated with the smart constructors on both sides.
+#[derive(Clone, Debug, PartialEq, Eq, Hash)]
+enum RopeX {
+    Owned(Vec<u8>),
+    Zeroed(usize),
+    Slice(Box<RopeX>, usize, usize),
+    Concat(Box<RopeX>, Box<RopeX>),
+    Tiled(Box<RopeX>, usize),
+}
+
+impl RopeX {
+    fn len(&self) -> usize {
+        match self {
+            RopeX::Owned(b) => b.len(),
+            RopeX::Zeroed(n) => *n,
+            RopeX::Slice(_, _, l) => *l,
+            RopeX::Concat(a, b) => a.len() + b.len(),
+            RopeX::Tiled(u, c) => u.len().saturating_mul(*c),
+        }
+    }
+    fn render(&self) -> String {
+        match self {
+            RopeX::Owned(b) if b.is_empty() => "(o)".into(),
+            RopeX::Owned(b) => format!("(o {})", hex(b)),
+            RopeX::Zeroed(n) => format!("(z {n})"),
+            RopeX::Slice(p, o, l) => format!("(s {} {o} {l})", p.render()),
+            RopeX::Concat(a, b) => format!("(c {} {})", a.render(), b.render()),
+            RopeX::Tiled(u, c) => format!("(x {} {c})", u.render()),
+        }
+    }
+    fn nodes(&self) -> usize {
+        match self {
+            RopeX::Owned(_) | RopeX::Zeroed(_) => 1,
+            RopeX::Slice(p, _, _) | RopeX::Tiled(p, _) => 1 + p.nodes(),
+            RopeX::Concat(a, b) => 1 + a.nodes() + b.nodes(),
+        }
+    }
+    fn kind(&self) -> &'static str {
+        match self {
+            RopeX::Owned(_) => "owned",
+            RopeX::Zeroed(_) => "zeroed",
+            RopeX::Slice(..) => "slice",
+            RopeX::Concat(..) => "concat",
+            RopeX::Tiled(..) => "tiled",
+        }
+    }
+    /// Build with the `BinaryData` smart constructors.
+    fn build_direct(&self) -> BinaryData {
+        match self {
+            RopeX::Owned(b) => BinaryData::new(b.clone()),
+            RopeX::Zeroed(n) => BinaryData::zeroed(*n),
+            RopeX::Slice(p, o, l) => BinaryData::slice(Rc::new(p.build_direct()), *o, *l).expect("generator makes in-range slices"),
+            RopeX::Concat(a, b) => BinaryData::concat(Rc::new(a.build_direct()), Rc::new(b.build_direct())),
+            RopeX::Tiled(u, c) => BinaryData::tiled(Rc::new(u.build_direct()), *c),
+        }
+    }
+    /// Build through chains of the real constructor builtins.
+    fn build_via_builtins(&self, b: &Builtins, ex: &mut Exec) -> Result<Binary, String> {
+        let call = |name: &str, v: Value, ex: &mut Exec| -> Result<Binary, String> {
+            let f = b.get_implementation(name).ok_or("unregistered")?;
+            match f(0, &v, ex) {
+                Ok(BuiltinResult::Value(Value::Binary(x))) => Ok(x),
+                Ok(_) => Err(format!("{name}: non-binary result")),
+                Err(e) => Err(format!("{name}: {e:?}")),
+            }
+        };
+        match self {
+            RopeX::Owned(bytes) => ex.allocate_binary(bytes.clone()).map_err(|e| format!("{e:?}")),
+            RopeX::Zeroed(n) => call("binary_new", Value::Integer(BigInt::from(*n)), ex),
+            RopeX::Slice(p, o, l) => {
+                let pb = p.build_via_builtins(b, ex)?;
+                call("binary_slice", tuple(vec![Value::Binary(pb), Value::Integer(BigInt::from(*o)), Value::Integer(BigInt::from(*o + *l))]), ex)
+            }
+            RopeX::Concat(x, y) => {
+                let xb = x.build_via_builtins(b, ex)?;
+                let yb = y.build_via_builtins(b, ex)?;
+                call("binary_concat", tuple(vec![Value::Binary(xb), Value::Binary(yb)]), ex)
+            }
+            RopeX::Tiled(u, c) => {
+                let ub = u.build_via_builtins(b, ex)?;
+                call("binary_repeat", tuple(vec![Value::Binary(ub), Value::Integer(BigInt::from(*c))]), ex)
+            }
+        }
+    }
+}
 
 /// Structural argument (what both sides see).
 #[derive(Clone, Debug, PartialEq, Eq, Hash)]
 enum Arg {
     Int(BigInt),
     Bin(Vec<u8>),
+    Rope(RopeX),
     Tup(Vec<Arg>),
+}
+
+fn tuple(vs: Vec<Value>) -> Value {
+    // tuple id is irrelevant to builtins (they look at fields only); NIL id for empty
+    Value::tuple(if vs.is_empty() { quiver_core::types::NIL } else { 2 }, vs)
 }
 
 fn render(a: &Arg) -> String {
@@ -25,6 +139,7 @@ fn render(a: &Arg) -> String {
         Arg::Int(i) => format!("(i {i})"),
         Arg::Bin(b) if b.is_empty() => "(b)".into(),
         Arg::Bin(b) => format!("(b {})", hex(b)),
+        Arg::Rope(r) => format!("(r {})", r.render()),
         Arg::Tup(fs) => {
             let mut s = "(t".to_string();
             for f in fs {
@@ -37,79 +152,103 @@ fn render(a: &Arg) -> String {
     }
 }
 
-fn boundary_ints() -> Vec<BigInt> {
-    let mut v: Vec<BigInt> = vec![];
-    let two = BigInt::from(2);
-    for k in [0u32, 1, 2, 3, 7, 8, 15, 16, 31, 32, 33, 48, 62, 63, 64, 65, 127, 128] {
-        let p = two.pow(k);
-        for d in [-1i32, 0, 1] {
-            v.push(&p + d);
-            v.push(-(&p + d));
-        }
-    }
-    for s in [0i64, 1, -1, 2, -2, 3, 4, 5, 8, 9, 10, 16, 24, 255, 256, -255, -256, 1000, 4096] {
-        v.push(BigInt::from(s));
-    }
-    v
+// --- a tiny S-expression reader for corpus / replay requests ---------------------------------
+
+#[derive(Debug, Clone)]
+enum Sx {
+    A(String),
+    L(Vec<Sx>),
 }
 
-fn gen_int(r: &mut Rng, pool: &[BigInt]) -> BigInt {
-    match r.below(10) {
-        0..=4 => pool[r.usize(pool.len())].clone(),
-        5..=6 => BigInt::from(r.range(-40, 40)),
-        7 => BigInt::from(r.next() as i64),
-        8 => BigInt::from(r.next() as i64) * BigInt::from(r.next() as i64) * BigInt::from(r.next() as i64),
-        _ => BigInt::from(r.range(-70000, 70000)),
-    }
-}
-
-fn gen_bin(r: &mut Rng) -> Vec<u8> {
-    let n = match r.below(10) {
-        0 => 0,
-        1 => 1,
-        2 => 4,
-        3 => 8,
-        4 => 16,
-        5 => 9,
-        6 => r.usize(40),
-        7 => 32,
-        _ => r.usize(12),
-    };
-    match r.below(4) {
-        0 => vec![0u8; n],
-        1 => vec![0xffu8; n],
-        _ => r.bytes(n),
-    }
-}
-
-fn gen_arg(spec: &TypeSpec, r: &mut Rng, pool: &[BigInt]) -> Option<Arg> {
-    Some(match spec {
-        TypeSpec::Integer => Arg::Int(gen_int(r, pool)),
-        TypeSpec::Binary => Arg::Bin(gen_bin(r)),
-        TypeSpec::Tuple(_, fields) => {
-            let mut v = vec![];
-            for (_, f) in fields {
-                v.push(gen_arg(f, r, pool)?);
+fn sx_parse(s: &str) -> Option<Vec<Sx>> {
+    let toks: Vec<String> = s.replace('(', " ( ").replace(')', " ) ").split_whitespace().map(|x| x.to_string()).collect();
+    fn go(t: &[String], i: &mut usize) -> Option<Vec<Sx>> {
+        let mut out = vec![];
+        while *i < t.len() {
+            match t[*i].as_str() {
+                "(" => {
+                    *i += 1;
+                    let inner = go(t, i)?;
+                    if *i >= t.len() || t[*i] != ")" {
+                        return None;
+                    }
+                    *i += 1;
+                    out.push(Sx::L(inner));
+                }
+                ")" => return Some(out),
+                a => {
+                    out.push(Sx::A(a.to_string()));
+                    *i += 1;
+                }
             }
-            Arg::Tup(v)
         }
-        TypeSpec::Union(vs) => {
-            let i = r.usize(vs.len());
-            gen_arg(&vs[i], r, pool)?
-        }
+        Some(out)
+    }
+    let mut i = 0;
+    let r = go(&toks, &mut i)?;
+    if i == toks.len() { Some(r) } else { None }
+}
+
+fn rope_of_sx(x: &Sx) -> Option<RopeX> {
+    let Sx::L(xs) = x else { return None };
+    let atom = |k: usize| -> Option<&str> { if let Some(Sx::A(a)) = xs.get(k) { Some(a.as_str()) } else { None } };
+    Some(match (atom(0)?, xs.len()) {
+        ("o", 1) => RopeX::Owned(vec![]),
+        ("o", 2) => RopeX::Owned(qverif::unhex(atom(1)?)),
+        ("z", 2) => RopeX::Zeroed(atom(1)?.parse().ok()?),
+        ("s", 4) => RopeX::Slice(Box::new(rope_of_sx(&xs[1])?), atom(2)?.parse().ok()?, atom(3)?.parse().ok()?),
+        ("c", 3) => RopeX::Concat(Box::new(rope_of_sx(&xs[1])?), Box::new(rope_of_sx(&xs[2])?)),
+        ("x", 3) => RopeX::Tiled(Box::new(rope_of_sx(&xs[1])?), atom(2)?.parse().ok()?),
         _ => return None,
     })
 }
 
-fn to_value(a: &Arg, ex: &mut Exec) -> Value {
-    match a {
-        Arg::Int(i) => Value::Integer(i.clone()),
-        Arg::Bin(b) => Value::Binary(ex.allocate_binary(b.clone()).expect("allocate")),
-        Arg::Tup(fs) => {
-            let vs: Vec<Value> = fs.iter().map(|f| to_value(f, ex)).collect();
-            // tuple id is irrelevant to builtins (they look at fields only); NIL id for empty
-            Value::tuple(if vs.is_empty() { quiver_core::types::NIL } else { 2 }, vs)
+fn arg_of_sx(x: &Sx) -> Option<Arg> {
+    let Sx::L(xs) = x else { return None };
+    let Sx::A(tag) = xs.first()? else { return None };
+    Some(match (tag.as_str(), xs.len()) {
+        ("i", 2) => {
+            let Sx::A(z) = &xs[1] else { return None };
+            Arg::Int(z.parse().ok()?)
         }
+        ("b", 1) => Arg::Bin(vec![]),
+        ("b", 2) => {
+            let Sx::A(h) = &xs[1] else { return None };
+            Arg::Bin(qverif::unhex(h))
+        }
+        ("r", 2) => Arg::Rope(rope_of_sx(&xs[1])?),
+        ("t", _) => Arg::Tup(xs[1..].iter().map(arg_of_sx).collect::<Option<Vec<_>>>()?),
+        _ => return None,
+    })
+}
+
+/// `call <name> <arg>` → (name, arg)
+fn parse_request(line: &str) -> Option<(String, Arg)> {
+    let xs = sx_parse(line)?;
+    match xs.as_slice() {
+        [Sx::A(c), Sx::A(name), a] if c == "call" => Some((name.clone(), arg_of_sx(a)?)),
+        _ => None,
+    }
+}
+
+// ---------------------------------------------------------------------------------------------
+// implementation side
+// ---------------------------------------------------------------------------------------------
+
+fn render_data(d: &BinaryData) -> String {
+    let n = d.len();
+    if n <= BIG {
+        let bytes = d.to_vec();
+        if bytes.is_empty() { "(b)".into() } else { format!("(b {})", hex(&bytes)) }
+    } else {
+        let probes: Vec<String> = [0, 1, n / 4, n / 3, n / 2, n - n / 3, n - 2, n - 1]
+            .iter()
+            .map(|&i| match d.byte_at(i) {
+                Some(b) => format!("{b:02x}"),
+                None => "--".to_string(),
+            })
+            .collect();
+        format!("(B {n} {})", probes.join(" "))
     }
 }
 
@@ -117,10 +256,7 @@ fn from_value(v: &Value, ex: &Exec) -> String {
     match v {
         Value::Integer(i) => format!("(i {i})"),
         Value::Binary(b) => match ex.get_binary_data(b) {
-            Ok(d) => {
-                let bytes = d.to_vec();
-                if bytes.is_empty() { "(b)".into() } else { format!("(b {})", hex(&bytes)) }
-            }
+            Ok(d) => render_data(d),
             Err(_) => "(b ?)".into(),
         },
         Value::Tuple(_, fs) => {
@@ -136,33 +272,642 @@ fn from_value(v: &Value, ex: &Exec) -> String {
     }
 }
 
-fn call_impl(b: &Builtins, name: &str, a: &Arg) -> String {
+/// how rope arguments are realised on the implementation side
+#[derive(Clone, Copy, PartialEq, Eq, Debug)]
+enum Build {
+    Direct,
+    ViaBuiltins,
+}
+
+fn to_value(a: &Arg, b: &Builtins, ex: &mut Exec, how: Build, bins: &mut Vec<(Binary, String)>) -> Result<Value, String> {
+    Ok(match a {
+        Arg::Int(i) => Value::Integer(i.clone()),
+        Arg::Bin(bytes) => {
+            let h = ex.allocate_binary(bytes.clone()).map_err(|e| format!("{e:?}"))?;
+            bins.push((h, String::new()));
+            Value::Binary(h)
+        }
+        Arg::Rope(r) => {
+            let h = match how {
+                Build::Direct => ex.allocate_binary_data(r.build_direct()).map_err(|e| format!("{e:?}"))?,
+                Build::ViaBuiltins => r.build_via_builtins(b, ex)?,
+            };
+            bins.push((h, String::new()));
+            Value::Binary(h)
+        }
+        Arg::Tup(fs) => {
+            let mut vs = vec![];
+            for f in fs {
+                vs.push(to_value(f, b, ex, how, bins)?);
+            }
+            tuple(vs)
+        }
+    })
+}
+
+struct ImplOut {
+    /// `ok <value>` | `err <Class>` | `panic <msg>` | `setup-failed <why>`
+    out: String,
+    /// set when an argument binary's content differs after the call
+    arg_modified: Option<String>,
+}
+
+fn call_impl(b: &Builtins, name: &str, a: &Arg, how: Build) -> ImplOut {
     let f = b.get_implementation(name).expect("registered");
     let r = catch(|| {
         let mut ex = Exec::new(b.clone(), false, 0);
-        let v = to_value(a, &mut ex);
-        match f(0, &v, &mut ex) {
+        let mut bins = vec![];
+        let v = match to_value(a, b, &mut ex, how, &mut bins) {
+            Ok(v) => v,
+            Err(e) => return ImplOut { out: format!("setup-failed {e}"), arg_modified: None },
+        };
+        for (h, before) in bins.iter_mut() {
+            *before = render_data(ex.get_binary_data(h).unwrap());
+        }
+        let out = match f(0, &v, &mut ex) {
             Ok(BuiltinResult::Value(v)) => format!("ok {}", from_value(&v, &ex)),
             Ok(BuiltinResult::Action(_)) => "action".to_string(),
             Err(e) => format!("err {}", qverif::canon::error_class(&e)),
+        };
+        let mut arg_modified = None;
+        for (h, before) in &bins {
+            let after = render_data(ex.get_binary_data(h).unwrap());
+            if &after != before {
+                arg_modified = Some(format!("argument binary {before} became {after}"));
+            }
         }
+        ImplOut { out, arg_modified }
     });
     match r {
         Ok(s) => s,
-        Err(p) => format!("panic {}", p.lines().next().unwrap_or("")),
+        Err(p) => ImplOut { out: format!("panic {}", p.lines().next().unwrap_or("")), arg_modified: None },
     }
 }
 
-fn signature_for(name: &str, a: &Arg, impl_out: &str) -> String {
-    // canonical description of *what* fails: builtin + outcome kind + coarse argument class
-    let kind = if impl_out.starts_with("panic") { "panic" } else { "wrong-value" };
-    let class = arg_class(a);
-    format!("builtin={name} kind={kind} class={class}")
+/// The same call through a compiled program `[args] __name__` (flat, small arguments only).
+fn source_of(a: &Arg) -> Option<String> {
+    Some(match a {
+        Arg::Int(i) => format!("{i}"),
+        Arg::Bin(b) if !b.is_empty() && b.len() <= 64 => format!("0x{}", hex(b)),
+        Arg::Tup(fs) if !fs.is_empty() => {
+            let parts: Option<Vec<String>> = fs.iter().map(source_of).collect();
+            format!("[{}]", parts?.join(", "))
+        }
+        _ => return None,
+    })
 }
+
+fn call_compiled(b: &Builtins, name: &str, a: &Arg) -> Option<String> {
+    let src = format!("{} __{}__", source_of(a)?, name);
+    let unit = match qverif::run::compile_source(&src, &Default::default(), b) {
+        Ok(u) => u,
+        Err(_) => return None, // statically rejected (e.g. literal outside the parameter type)
+    };
+    let bc = unit.program.to_bytecode(Some(unit.entry));
+    let (out, ex) = qverif::run::run_sync(bc, b, false);
+    Some(match out {
+        qverif::run::RunOutcome::Value(v) => format!("ok {}", from_value(&v, ex.as_ref().unwrap())),
+        qverif::run::RunOutcome::Error(e) => format!("err {}", qverif::canon::error_class(&e)),
+        qverif::run::RunOutcome::Panic(p) => format!("panic {}", p.lines().next().unwrap_or("")),
+    })
+}
+
+// ---------------------------------------------------------------------------------------------
+// generators
+// ---------------------------------------------------------------------------------------------
+
+fn boundary_ints() -> Vec<BigInt> {
+    let mut v: Vec<BigInt> = vec![];
+    let two = BigInt::from(2);
+    for k in [0u32, 1, 2, 3, 7, 8, 15, 16, 24, 31, 32, 33, 48, 61, 62, 63, 64, 65, 127, 128] {
+        let p = two.pow(k);
+        for d in [-1i32, 0, 1] {
+            v.push(&p + d);
+            v.push(-(&p + d));
+        }
+    }
+    for s in [0i64, 1, -1, 2, -2, 3, 4, 5, 8, 9, 10, 16, 24, 255, 256, -255, -256, 1000, 4096] {
+        v.push(BigInt::from(s));
+    }
+    v
+}
+
+struct Gen {
+    pool: Vec<BigInt>,
+}
+
+impl Gen {
+    fn int(&self, r: &mut Rng) -> BigInt {
+        match r.below(10) {
+            0..=4 => self.pool[r.usize(self.pool.len())].clone(),
+            5..=6 => BigInt::from(r.range(-40, 40)),
+            7 => BigInt::from(r.next() as i64),
+            8 => BigInt::from(r.next() as i64) * BigInt::from(r.next() as i64) * BigInt::from(r.next() as i64),
+            _ => BigInt::from(r.range(-70000, 70000)),
+        }
+    }
+    /// an integer that is usually `good`, sometimes a neighbour, sometimes a boundary magnitude
+    fn near(&self, r: &mut Rng, good: i64) -> BigInt {
+        match r.below(16) {
+            0 => BigInt::from(good) + 1,
+            1 => BigInt::from(good) - 1,
+            2 => self.pool[r.usize(self.pool.len())].clone(),
+            3 => BigInt::from(good) + BigInt::from(2).pow(*r.pick(&[32u32, 61, 63, 64])),
+            _ => BigInt::from(good),
+        }
+    }
+    fn bytes(&self, r: &mut Rng, n: usize) -> Vec<u8> {
+        match r.below(8) {
+            0 => vec![0u8; n],
+            1 => vec![0xffu8; n],
+            2 => {
+                // periodic content (so that a tiled shape of equal content exists)
+                let p = 1 + r.usize(4);
+                let unit = r.bytes(p);
+                (0..n).map(|i| unit[i % p]).collect()
+            }
+            3 => {
+                // few distinct byte values (searches hit and miss)
+                let alphabet = [0u8, 1, 0x80, 0xff, 0x0a];
+                (0..n).map(|_| *r.pick(&alphabet)).collect()
+            }
+            _ => r.bytes(n),
+        }
+    }
+    fn bin(&self, r: &mut Rng) -> Vec<u8> {
+        let n = match r.below(12) {
+            0 => 0,
+            1 => 1,
+            2 => 4,
+            3 => 8,
+            4 => 16,
+            5 => 9,
+            6 => r.usize(40),
+            7 => 32,
+            8 => 10,
+            9 => 64 + r.usize(200),
+            _ => r.usize(12),
+        };
+        self.bytes(r, n)
+    }
+    /// a packed vector of `lanes` lanes of `w` bytes with boundary-biased lane values
+    fn lanes(&self, r: &mut Rng, w: usize, lanes: usize) -> Vec<u8> {
+        let mut out = vec![];
+        for _ in 0..lanes {
+            let v: i64 = match r.below(10) {
+                0 => 0,
+                1 => 1,
+                2 => -1,
+                3 => if w == 4 { i32::MAX as i64 } else { i64::MAX },
+                4 => if w == 4 { i32::MIN as i64 } else { i64::MIN },
+                5 => r.range(-1000, 1000),
+                6 => if w == 4 { (r.next() as i32) as i64 } else { r.next() as i64 },
+                7 => if w == 4 { 46341 } else { 3037000500 },
+                8 => if w == 4 { i32::MAX as i64 - r.range(0, 3) } else { i64::MAX - r.range(0, 3) },
+                _ => r.range(-70000, 70000),
+            };
+            if w == 4 {
+                out.extend_from_slice(&(v as i32).to_le_bytes());
+            } else {
+                out.extend_from_slice(&v.to_le_bytes());
+            }
+        }
+        out
+    }
+    fn width(&self, r: &mut Rng) -> (usize, BigInt) {
+        let w = if r.chance(1, 2) { 4usize } else { 8 };
+        let given = match r.below(14) {
+            0 => self.pool[r.usize(self.pool.len())].clone(),
+            1 => BigInt::from(*r.pick(&[0i64, 1, 2, 3, 5, 16, -4, -8, 12])),
+            _ => BigInt::from(w),
+        };
+        (w, given)
+    }
+
+    /// Domain-biased argument for a known builtin; `None` → fall back to the TypeSpec generator.
+    fn for_name(&self, name: &str, r: &mut Rng) -> Option<Arg> {
+        use Arg::*;
+        let bi = |v: i64| Int(BigInt::from(v));
+        Some(match name {
+            "binary_new" => Int(match r.below(8) {
+                0 => BigInt::from(MAX as i64 + r.range(-2, 2)),
+                1 => self.int(r),
+                2 => BigInt::from(BIG as i64 + r.range(-2, 2)),
+                _ => BigInt::from(r.range(0, 300)),
+            }),
+            "binary_length" | "binary_not" | "binary_popcount" | "binary_hash32" | "binary_hash64" => Bin(self.bin(r)),
+            "binary_concat" | "binary_and" | "binary_or" | "binary_xor" => {
+                let a = self.bin(r);
+                let b = if r.chance(1, 3) { self.bytes(r, a.len()) } else { self.bin(r) };
+                Tup(vec![Bin(a), Bin(b)])
+            }
+            "binary_repeat" => {
+                let a = self.bin(r);
+                let c = match r.below(10) {
+                    0 => self.int(r),
+                    1 => {
+                        // product around the size limit
+                        let l = a.len().max(1);
+                        BigInt::from((MAX / l) as i64 + r.range(-1, 2))
+                    }
+                    2 => BigInt::from(2).pow(*r.pick(&[32u32, 62, 63, 64])) + r.range(-1, 1),
+                    _ => BigInt::from(r.range(0, 6)),
+                };
+                Tup(vec![Bin(a), Int(c)])
+            }
+            "binary_shift" => {
+                let a = self.bin(r);
+                let bits = (a.len() * 8) as i64;
+                let amt = match r.below(12) {
+                    0 => self.int(r),
+                    1 => BigInt::from(2).pow(32) * r.range(-3, 3) + r.range(-9, 9),
+                    2 => BigInt::from(8 * r.range(-(a.len() as i64) - 1, a.len() as i64 + 1)),
+                    3 => BigInt::from(bits + r.range(-9, 9)),
+                    4 => BigInt::from(-bits + r.range(-9, 9)),
+                    5 => BigInt::from(*r.pick(&[i64::MAX, i64::MIN, i64::MIN + 1, u32::MAX as i64, u32::MAX as i64 + 1, -(u32::MAX as i64) - 1])),
+                    _ => BigInt::from(r.range(-bits - 2, bits + 2)),
+                };
+                Tup(vec![Bin(a), Int(amt)])
+            }
+            "binary_get" | "binary_set" => {
+                let a = self.bin(r);
+                let len = a.len() as i64;
+                let nb = match r.below(8) {
+                    0 => 64,
+                    1 => 1,
+                    2 => 8,
+                    3 => *r.pick(&[7i64, 9, 15, 16, 17, 31, 32, 33, 57, 63]),
+                    _ => r.range(1, 64),
+                };
+                let bit = r.range(0, 7);
+                let need = (bit + nb + 7) / 8;
+                let bo = if len >= need && r.chance(5, 6) { r.range(0, len - need) } else { r.range(0, len + 1) };
+                let bo = match r.below(14) {
+                    0 => self.int(r),
+                    1 => BigInt::from(2).pow(*r.pick(&[61u32, 62, 63])) - r.range(0, 2),
+                    2 => BigInt::from(len - need + 1),
+                    _ => BigInt::from(bo),
+                };
+                let bit = self.near(r, bit);
+                let nbv = self.near(r, nb);
+                if name == "binary_get" {
+                    Tup(vec![Bin(a), Int(bo), Int(bit), Int(nbv)])
+                } else {
+                    let maxv: BigInt = BigInt::from(2).pow(nb as u32) - 1;
+                    let v = match r.below(10) {
+                        0 => maxv.clone() + 1,
+                        1 => maxv.clone(),
+                        2 => BigInt::zero(),
+                        3 => self.int(r),
+                        4 => BigInt::from(-1),
+                        _ => BigInt::from(r.next()) % (maxv.clone() + 1),
+                    };
+                    Tup(vec![Bin(a), Int(bo), Int(bit), Int(v), Int(nbv)])
+                }
+            }
+            "binary_slice" => {
+                let a = self.bin(r);
+                let len = a.len() as i64;
+                let s = r.range(0, len);
+                let e = r.range(s, len);
+                let (s, e) = match r.below(10) {
+                    0 => (self.int(r), BigInt::from(e)),
+                    1 => (BigInt::from(s), self.int(r)),
+                    2 => (BigInt::from(e + 1), BigInt::from(s)),
+                    3 => (BigInt::from(0), BigInt::from(len)),
+                    4 => (BigInt::from(s), BigInt::from(len + 1)),
+                    _ => (BigInt::from(s), BigInt::from(e)),
+                };
+                Tup(vec![Bin(a), Int(s), Int(e)])
+            }
+            "binary_index" => {
+                let a = self.bin(r);
+                let byte = match r.below(8) {
+                    0 => self.int(r),
+                    1 => BigInt::from(*r.pick(&[-1i64, 255, 256, 0])),
+                    2 | 3 if !a.is_empty() => BigInt::from(a[r.usize(a.len())]),
+                    _ => BigInt::from(r.below(256)),
+                };
+                let off = match r.below(8) {
+                    0 => self.int(r),
+                    1 => BigInt::from(a.len() as i64 + r.range(-1, 1)),
+                    _ => BigInt::from(r.range(0, a.len() as i64)),
+                };
+                Tup(vec![Bin(a), Int(byte), Int(off)])
+            }
+            "binary_append" => {
+                let a = self.bin(r);
+                let nb = r.range(1, 8);
+                let maxv: BigInt = BigInt::from(2).pow(8 * nb as u32) - 1;
+                let v = match r.below(10) {
+                    0 => maxv.clone() + 1,
+                    1 => maxv.clone(),
+                    2 => self.int(r),
+                    3 => BigInt::from(i64::MAX) + r.range(-1, 1),
+                    _ => BigInt::from(r.next()) % (maxv.clone() + 1),
+                };
+                Tup(vec![Bin(a), Int(v), Int(self.near(r, nb))])
+            }
+            "vector_add" | "vector_subtract" | "vector_multiply" | "vector_less_than" | "vector_equal"
+            | "vector_greater_than" | "vector_dot" => {
+                let (w, given) = self.width(r);
+                let n = r.usize(6);
+                let a = self.lanes(r, w, n);
+                let mut b = match r.below(10) {
+                    0 => self.lanes(r, w, n + 1),
+                    1 => a.clone(),
+                    _ => self.lanes(r, w, n),
+                };
+                let mut a = a;
+                if r.chance(1, 12) {
+                    a.push(7);
+                    if r.chance(1, 2) {
+                        b.push(9);
+                    }
+                }
+                Tup(vec![Bin(a), Bin(b), Int(given)])
+            }
+            "vector_take" => {
+                let (w, given) = self.width(r);
+                let n = r.usize(7);
+                let mut d = self.lanes(r, w, n);
+                let mn = match r.below(8) {
+                    0 => n + 1,
+                    1 if n > 0 => n - 1,
+                    _ => n,
+                };
+                let mask: Vec<u8> = (0..mn).map(|_| *r.pick(&[0u8, 1, 1, 0xff, 2])).collect();
+                if r.chance(1, 12) {
+                    d.push(1);
+                }
+                Tup(vec![Bin(d), Int(given), Bin(mask)])
+            }
+            "vector_get" => {
+                let (w, given) = self.width(r);
+                let n = r.usize(6);
+                let mut d = self.lanes(r, w, n);
+                if r.chance(1, 12) {
+                    d.push(1);
+                }
+                let idx = match r.below(10) {
+                    0 => self.int(r),
+                    1 => BigInt::from(2).pow(64) - r.range(0, 2),
+                    2 => BigInt::from(n as i64 + r.range(-1, 1)),
+                    3 => BigInt::from(u64::MAX / w as u64) + r.range(-1, 2),
+                    _ => BigInt::from(r.range(0, n.max(1) as i64 - 1)),
+                };
+                Tup(vec![Bin(d), Int(given), Int(idx)])
+            }
+            "vector_push" => {
+                let (w, given) = self.width(r);
+                let n = r.usize(5);
+                let mut d = self.lanes(r, w, n);
+                if r.chance(1, 12) {
+                    d.push(1);
+                }
+                let lim: BigInt = BigInt::from(2).pow(8 * w as u32 - 1);
+                let v = match r.below(10) {
+                    0 => self.int(r),
+                    1 => lim.clone(),
+                    2 => lim.clone() - 1,
+                    3 => -lim.clone(),
+                    4 => -lim.clone() - 1,
+                    5 => BigInt::from(i32::MAX) + r.range(-1, 2),
+                    _ => BigInt::from(r.range(-100000, 100000)),
+                };
+                Tup(vec![Bin(d), Int(given), Int(v)])
+            }
+            "vector_sum" => {
+                let (w, given) = self.width(r);
+                let n = r.usize(8);
+                let mut d = self.lanes(r, w, n);
+                if r.chance(1, 12) {
+                    d.push(1);
+                }
+                Tup(vec![Bin(d), Int(given)])
+            }
+            "integer_shift" => Tup(vec![
+                Int(self.int(r)),
+                match r.below(4) {
+                    0 => Int(self.int(r)),
+                    1 => bi(*r.pick(&[63i64, 64, 65, -63, -64, -65, i64::MIN, i64::MAX, 0])),
+                    _ => bi(r.range(-70, 70)),
+                },
+            ]),
+            _ => return None,
+        })
+    }
+
+    /// Argument generated from the declared parameter `TypeSpec`.
+    fn from_spec(&self, spec: &TypeSpec, r: &mut Rng) -> Option<Arg> {
+        Some(match spec {
+            TypeSpec::Integer => Arg::Int(self.int(r)),
+            TypeSpec::Binary => Arg::Bin(self.bin(r)),
+            TypeSpec::Tuple(_, fields) => {
+                let mut v = vec![];
+                for (_, f) in fields {
+                    v.push(self.from_spec(f, r)?);
+                }
+                Arg::Tup(v)
+            }
+            TypeSpec::Union(vs) => {
+                let i = r.usize(vs.len());
+                self.from_spec(&vs[i], r)?
+            }
+            _ => return None,
+        })
+    }
+
+    /// An ill-typed argument: wrong kinds / wrong arity (the declared type is violated on purpose).
+    fn malformed(&self, spec: &TypeSpec, r: &mut Rng) -> Option<Arg> {
+        let good = self.from_spec(spec, r)?;
+        Some(match good {
+            Arg::Tup(mut fs) => match r.below(4) {
+                0 => {
+                    fs.pop();
+                    Arg::Tup(fs)
+                }
+                1 => {
+                    fs.push(Arg::Int(self.int(r)));
+                    Arg::Tup(fs)
+                }
+                2 => {
+                    let i = r.usize(fs.len().max(1));
+                    if let Some(f) = fs.get_mut(i) {
+                        *f = match f {
+                            Arg::Int(_) => Arg::Bin(self.bin(r)),
+                            _ => Arg::Int(self.int(r)),
+                        };
+                    }
+                    Arg::Tup(fs)
+                }
+                _ => fs.into_iter().next().unwrap_or(Arg::Tup(vec![])),
+            },
+            Arg::Int(_) => if r.chance(1, 2) { Arg::Bin(self.bin(r)) } else { Arg::Tup(vec![]) },
+            _ => if r.chance(1, 2) { Arg::Int(self.int(r)) } else { Arg::Tup(vec![Arg::Int(self.int(r))]) },
+        })
+    }
+
+    /// A random rope expression whose content is exactly `bytes`.
+    fn shape(&self, bytes: &[u8], r: &mut Rng, depth: u32) -> RopeX {
+        let n = bytes.len();
+        if depth == 0 {
+            return RopeX::Owned(bytes.to_vec());
+        }
+        match r.below(9) {
+            0 => RopeX::Owned(bytes.to_vec()),
+            1 if n > 0 && bytes.iter().all(|&b| b == 0) => RopeX::Zeroed(n),
+            1 | 2 => {
+                // concat at a random split point (empty sides included)
+                let k = if r.chance(1, 6) { *r.pick(&[0usize, n]) } else { r.usize(n + 1) };
+                RopeX::Concat(Box::new(self.shape(&bytes[..k], r, depth - 1)), Box::new(self.shape(&bytes[k..], r, depth - 1)))
+            }
+            3 | 4 => {
+                // a window into a larger parent
+                let pre = if r.chance(1, 3) { 0 } else { r.usize(5) };
+                let post = if r.chance(1, 3) { 0 } else { r.usize(5) };
+                let mut parent = r.bytes(pre);
+                parent.extend_from_slice(bytes);
+                parent.extend(r.bytes(post));
+                RopeX::Slice(Box::new(self.shape(&parent, r, depth - 1)), pre, n)
+            }
+            5 | 6 => {
+                // tiled, when the content is periodic
+                let mut found = None;
+                for p in 1..=n / 2 {
+                    if n % p == 0 && (0..n).all(|i| bytes[i] == bytes[i % p]) {
+                        found = Some(p);
+                        break;
+                    }
+                }
+                match found {
+                    Some(p) => RopeX::Tiled(Box::new(self.shape(&bytes[..p], r, depth - 1)), n / p),
+                    None => {
+                        let k = r.usize(n + 1);
+                        RopeX::Concat(Box::new(self.shape(&bytes[..k], r, depth - 1)), Box::new(self.shape(&bytes[k..], r, depth - 1)))
+                    }
+                }
+            }
+            7 => {
+                // left-leaning spine of small pieces (what repeated vector_push / append builds)
+                let piece = *r.pick(&[1usize, 4, 8]);
+                let mut acc: Option<RopeX> = None;
+                let mut i = 0;
+                while i < n {
+                    let j = (i + piece).min(n);
+                    let leaf = RopeX::Owned(bytes[i..j].to_vec());
+                    acc = Some(match acc {
+                        None => leaf,
+                        Some(a) => RopeX::Concat(Box::new(a), Box::new(leaf)),
+                    });
+                    i = j;
+                }
+                acc.unwrap_or(RopeX::Owned(vec![]))
+            }
+            _ => {
+                // tiled of count 1 / count 0 prefix: degenerate normalisations
+                if r.chance(1, 2) {
+                    RopeX::Tiled(Box::new(self.shape(bytes, r, depth - 1)), 1)
+                } else {
+                    RopeX::Concat(Box::new(RopeX::Tiled(Box::new(RopeX::Owned(r.bytes(3))), 0)), Box::new(self.shape(bytes, r, depth - 1)))
+                }
+            }
+        }
+    }
+
+    /// Replace every flat binary by a random rope of equal content.
+    fn reshape(&self, a: &Arg, r: &mut Rng) -> Arg {
+        match a {
+            Arg::Bin(b) => {
+                let depth = 1 + r.below(3) as u32;
+                Arg::Rope(self.shape(b, r, depth))
+            }
+            Arg::Tup(fs) => Arg::Tup(fs.iter().map(|f| self.reshape(f, r)).collect()),
+            other => other.clone(),
+        }
+    }
+
+    /// Lazy ropes of (near-)maximal size; never flattened on either side.
+    fn big_rope(&self, r: &mut Rng) -> RopeX {
+        let n = MAX - r.usize(3);
+        match r.below(6) {
+            0 => RopeX::Zeroed(n),
+            1 => {
+                let unit = *r.pick(&[1usize, 2, 4, 8, 16]);
+                RopeX::Tiled(Box::new(RopeX::Owned(r.bytes(unit))), MAX / unit)
+            }
+            2 => RopeX::Concat(Box::new(RopeX::Zeroed(MAX - 8)), Box::new(RopeX::Owned(r.bytes(8)))),
+            3 => RopeX::Slice(Box::new(RopeX::Zeroed(MAX)), 1 + r.usize(3), MAX - 8),
+            4 => RopeX::Concat(Box::new(RopeX::Owned(r.bytes(5))), Box::new(RopeX::Tiled(Box::new(RopeX::Owned(vec![0xab, 0xcd])), (MAX - 5) / 2))),
+            _ => RopeX::Zeroed(n / 2),
+        }
+    }
+
+    /// calls on maximal binaries for the builtins that work in O(1) on ropes
+    fn big_case(&self, r: &mut Rng) -> (String, Arg) {
+        use Arg::*;
+        let big = self.big_rope(r);
+        let n = big.len() as i64;
+        let bi = |v: i64| Int(BigInt::from(v));
+        match r.below(11) {
+            0 => ("binary_length".into(), Rope(big)),
+            1 => {
+                let nb = r.range(1, 64);
+                let bit = r.range(0, 7);
+                let need = (bit + nb + 7) / 8;
+                let bo = *r.pick(&[0i64, n - need, n - need + 1, n / 2, n - 9, n - 8]);
+                ("binary_get".into(), Tup(vec![Rope(big), bi(bo), bi(bit), bi(nb)]))
+            }
+            2 => {
+                let nb = r.range(1, 64);
+                let bit = r.range(0, 7);
+                let need = (bit + nb + 7) / 8;
+                let bo = *r.pick(&[0i64, n - need, n - need + 1, n / 2]);
+                let v = BigInt::from(r.next()) % BigInt::from(2).pow(nb as u32);
+                ("binary_set".into(), Tup(vec![Rope(big), bi(bo), bi(bit), Int(v), bi(nb)]))
+            }
+            3 => {
+                let s = *r.pick(&[0i64, 1, n / 2, n - 1, n]);
+                let e = *r.pick(&[n, n - 1, n / 2 + 3, n + 1, s]);
+                ("binary_slice".into(), Tup(vec![Rope(big), bi(s), bi(e)]))
+            }
+            4 => {
+                let byte = *r.pick(&[0i64, 0xab, 0xcd, 1, 0xff]);
+                let off = *r.pick(&[0i64, 1, n / 2, n - 9, n - 2, n - 1, n]);
+                ("binary_index".into(), Tup(vec![Rope(big), bi(byte), bi(off)]))
+            }
+            5 => {
+                let small = self.bin(r);
+                let extra = RopeX::Zeroed(*r.pick(&[0usize, 1, 2, 3, 8]));
+                if r.chance(1, 2) {
+                    ("binary_concat".into(), Tup(vec![Rope(big), Bin(small)]))
+                } else {
+                    ("binary_concat".into(), Tup(vec![Rope(extra), Rope(big)]))
+                }
+            }
+            6 => ("binary_repeat".into(), Tup(vec![Rope(big), bi(*r.pick(&[0i64, 1, 2, 1 << 40]))])),
+            7 => {
+                let nb = r.range(1, 8);
+                ("binary_append".into(), Tup(vec![Rope(big), bi(r.range(0, 255)), bi(nb)]))
+            }
+            8 => ("vector_push".into(), Tup(vec![Rope(big), bi(*r.pick(&[4i64, 8])), bi(r.range(-5, 5))])),
+            9 => ("binary_new".into(), bi(MAX as i64 + r.range(-1, 1))),
+            _ => {
+                let unit = self.bin(r);
+                let l = unit.len().max(1);
+                ("binary_repeat".into(), Tup(vec![Bin(unit), bi((MAX / l) as i64 + r.range(-1, 1))]))
+            }
+        }
+    }
+}
+
+// ---------------------------------------------------------------------------------------------
+// classification for signatures / counters
+// ---------------------------------------------------------------------------------------------
 
 fn int_class(i: &BigInt) -> &'static str {
     let two = BigInt::from(2);
-    let a = if i < &BigInt::from(0) { -i.clone() } else { i.clone() };
+    let a = i.abs();
     if a < two.pow(31) {
         "small"
     } else if a < two.pow(32) {
@@ -180,18 +925,186 @@ fn arg_class(a: &Arg) -> String {
     match a {
         Arg::Int(i) => int_class(i).to_string(),
         Arg::Bin(b) => format!("bin{}", if b.is_empty() { "0" } else if b.len() <= 8 { "<=8" } else { ">8" }),
+        Arg::Rope(r) => format!("rope-{}", r.kind()),
         Arg::Tup(fs) => fs.iter().map(arg_class).collect::<Vec<_>>().join(","),
     }
+}
+
+fn outcome_kind(s: &str) -> &str {
+    s.split_whitespace().next().unwrap_or("")
+}
+
+fn count_arg(ev: &mut Ev, a: &Arg) {
+    match a {
+        Arg::Int(i) => ev.hit(&format!("arg-int:{}{}", if i.is_negative() { "-" } else { "" }, int_class(i))),
+        Arg::Bin(b) => ev.hit(&format!("arg-bin-len:{}", match b.len() { 0 => "0", 1..=8 => "1-8", 9..=40 => "9-40", _ => ">40" })),
+        Arg::Rope(r) => {
+            ev.hit(&format!("arg-rope-root:{}", r.kind()));
+            ev.hit(&format!("arg-rope-nodes:{}", match r.nodes() { 1 => "1", 2..=3 => "2-3", 4..=8 => "4-8", _ => ">8" }));
+        }
+        Arg::Tup(fs) => fs.iter().for_each(|f| count_arg(ev, f)),
+    }
+}
+
+// ---------------------------------------------------------------------------------------------
+// one checked call
+// ---------------------------------------------------------------------------------------------
+
+struct Ctx<'a> {
+    b: &'a Builtins,
+    model: &'a mut Model,
+    ev: &'a mut Ev,
+    modelled: std::collections::BTreeSet<String>,
+    unmodelled: std::collections::BTreeSet<String>,
+    stage: &'static str,
+}
+
+impl Ctx<'_> {
+    fn report(&mut self, name: &str, a: &Arg, kind: &str, what: String, replay: serde_json::Value) {
+        let sig = format!("builtin={name} kind={kind} class={}", arg_class(a));
+        let mut replay = replay;
+        replay["stage"] = json!(self.stage);
+        self.ev.violation(&sig, &what, replay, true);
+    }
+
+    /// Run one call on the implementation and the model; returns the implementation outcome.
+    fn check(&mut self, name: &str, a: &Arg, how: Build, expected: Option<&str>) -> String {
+        let req = format!("call {name} {}", render(a));
+        let io = call_impl(self.b, name, a, how);
+        let model_out = self.model.ask(&req);
+        let kind = outcome_kind(&io.out).to_string();
+        self.ev.hit(&format!("outcome:{kind}"));
+        if kind == "err" {
+            self.ev.hit(&format!("error:{}", &io.out[4..]));
+        }
+        if kind == "setup-failed" {
+            // the argument itself could not be built (generator bug, not a property failure)
+            self.ev.hit("setup-failed");
+            return io.out;
+        }
+        let has_model = model_out != "no-model";
+        if has_model {
+            self.modelled.insert(name.to_string());
+        } else {
+            self.unmodelled.insert(name.to_string());
+        }
+        self.ev.case(&(name, a), has_model && (kind == "ok" || kind == "err"));
+        let n = self.ev.evaluations;
+        self.ev.sample_sparse(n, 20000, || json!({"request": req, "impl": io.out, "model": model_out}));
+        if kind == "panic" {
+            self.report(name, a, "panic", format!("{name} panics on {}: {}", render(a), io.out),
+                json!({"request": req, "impl": io.out, "model": model_out, "build": format!("{how:?}")}));
+        } else if let Some(m) = &io.arg_modified {
+            self.report(name, a, "argument-modified", format!("{name} on {} modified its argument: {m}", render(a)),
+                json!({"request": req, "impl": io.out, "detail": m, "build": format!("{how:?}")}));
+        } else if has_model && io.out != model_out {
+            // the model is the reference (C12.* theorems): a differing value is a wrong result
+            self.report(name, a, "wrong-value",
+                format!("{name} on {} returns `{}` but the reference model gives `{model_out}`", render(a), clip(&io.out)),
+                json!({"request": req, "impl": io.out, "model": model_out, "build": format!("{how:?}")}));
+        }
+        if let Some(e) = expected {
+            if io.out != e {
+                self.report(name, a, if kind == "panic" { "panic" } else { "wrong-value" },
+                    format!("{name} on {} returns `{}`; the recorded correct answer is `{e}`", render(a), clip(&io.out)),
+                    json!({"request": req, "impl": io.out, "expected": e}));
+            }
+            if has_model && model_out != e {
+                self.ev.violation(&format!("builtin={name} kind=model-vs-corpus"),
+                    &format!("model answers `{model_out}` for corpus case `{req}` whose recorded answer is `{e}`"),
+                    json!({"request": req, "model": model_out, "expected": e, "broken": format!("correspondence model<->corpus on {name}")}), false);
+            }
+        }
+        io.out
+    }
+
+    /// flat call + the same call with every binary reshaped (both ways of building the rope)
+    fn check_with_shapes(&mut self, g: &Gen, name: &str, a: &Arg, r: &mut Rng) {
+        count_arg(self.ev, a);
+        let flat = self.check(name, a, Build::Direct, None);
+        if outcome_kind(&flat) == "setup-failed" {
+            return;
+        }
+        let shaped = g.reshape(a, r);
+        if &shaped == a {
+            return;
+        }
+        count_arg(self.ev, &shaped);
+        let how = if r.chance(1, 2) { Build::Direct } else { Build::ViaBuiltins };
+        self.ev.hit(&format!("rope-build:{how:?}"));
+        let out2 = self.check(name, &shaped, how, None);
+        if outcome_kind(&out2) == "setup-failed" {
+            return;
+        }
+        if out2 != flat && outcome_kind(&out2) != "panic" && outcome_kind(&flat) != "panic" {
+            self.report(name, &shaped, "shape-dependent",
+                format!("{name} depends on how its argument was built: `{}` on {} but `{}` on {}", clip(&flat), render(a), clip(&out2), render(&shaped)),
+                json!({"request": format!("call {name} {}", render(&shaped)), "flat_request": format!("call {name} {}", render(a)),
+                       "impl_flat": flat, "impl_shaped": out2, "build": format!("{how:?}")}));
+        }
+    }
+}
+
+fn clip(s: &str) -> String {
+    if s.len() > 200 { format!("{}…", &s[..200]) } else { s.to_string() }
+}
+
+fn name_seed(name: &str) -> u64 {
+    let mut s = 0u64;
+    for c in name.bytes() {
+        s = s.wrapping_mul(131).wrapping_add(c as u64);
+    }
+    s
+}
+
+// ---------------------------------------------------------------------------------------------
+
+fn corpus_dir() -> String {
+    // the corpus lives beside the harness sources (never under the repo under test)
+    let lean = qverif::lean_dir();
+    let root = std::path::Path::new(&lean).parent().map(|p| p.to_path_buf()).unwrap_or_default();
+    let local = root.join("corpus/C12");
+    if local.is_dir() { local.to_string_lossy().to_string() } else { "/verif/corpus/C12".to_string() }
+}
+
+/// corpus line: `call <name> <arg> => <expected outcome>`; `#` comments
+fn load_corpus() -> Vec<(String, String, Arg, String)> {
+    let mut out = vec![];
+    let dir = corpus_dir();
+    let mut files: Vec<_> = std::fs::read_dir(&dir).map(|d| d.filter_map(|e| e.ok()).map(|e| e.path()).collect()).unwrap_or_default();
+    files.sort();
+    for f in files {
+        if f.extension().and_then(|e| e.to_str()) != Some("txt") {
+            continue;
+        }
+        let text = std::fs::read_to_string(&f).unwrap_or_default();
+        for (ln, line) in text.lines().enumerate() {
+            let line = line.trim();
+            if line.is_empty() || line.starts_with('#') {
+                continue;
+            }
+            let Some((req, exp)) = line.split_once("=>") else {
+                panic!("corpus {}:{}: missing `=>`", f.display(), ln + 1);
+            };
+            let Some((name, arg)) = parse_request(req.trim()) else {
+                panic!("corpus {}:{}: unparsable request", f.display(), ln + 1);
+            };
+            out.push((format!("{}:{}", f.file_name().unwrap().to_string_lossy(), ln + 1), name, arg, exp.trim().to_string()));
+        }
+    }
+    out
 }
 
 fn main() {
     qverif::quiet_panics();
     let opts = Opts::parse();
     let mut ev = Ev::new("C12", &opts);
-    ev.rule = "arguments generated from each builtin's declared TypeSpec (boundary-biased integers \
-               0,±1,2^k±1 for k up to 128, random 64-bit and multi-limb values; binaries of length \
-               0..40 incl. all-zero/all-ones); a case is non-trivial when the implementation \
-               returned a value or a clean error for a modelled builtin; distinct by (name, argument)"
+    ev.rule = "per builtin: domain-biased arguments (valid windows/indices/widths with off-by-one \
+               neighbours; boundary integers 0,±1,2^k±1 for k≤128; binaries of length 0..264 incl. \
+               all-zero/all-ones/periodic; lane values at i32/i64 limits), arguments from the declared \
+               TypeSpec, ill-typed arguments, each also with binaries rebuilt as random ropes of equal \
+               content; maximal (16 MiB) lazy ropes for the O(1) builtins; a case is non-trivial when a \
+               modelled builtin returned a value or a clean error; distinct by (name, argument)"
         .into();
     // pure families only: integer, binary, vector (the io/reference builtins are effects)
     let b: Builtins = quiver_core::builtins::BuiltinRegistry::with_modules(&[
@@ -199,86 +1112,216 @@ fn main() {
         quiver_core::builtins::register_integer_builtins,
         quiver_core::builtins::register_vector_builtins,
     ]);
+    let boundary_only = opts.has_flag("--boundary-only");
     let mut model = Model::spawn(opts.model.as_ref().expect("--model"));
-    let pool = boundary_ints();
+    let g = Gen { pool: boundary_ints() };
     let names = b.get_function_names();
-    let per_name = opts.tier.pick(700u64, 20000u64);
-    let mut unmodelled = std::collections::BTreeSet::new();
-    let mut modelled = std::collections::BTreeSet::new();
 
-    // replay mode: a single (name, arg) from a replay file
+    // replay mode: re-run one recorded request on both sides
     if let Some(p) = &opts.replay {
         let j: serde_json::Value = serde_json::from_str(&std::fs::read_to_string(p).unwrap()).unwrap();
         let req = j["replay"]["request"].as_str().unwrap().to_string();
-        let name = req.split_whitespace().nth(1).unwrap().to_string();
+        let (name, arg) = parse_request(&req).expect("replay request parses");
+        let how = if j["replay"]["build"].as_str() == Some("ViaBuiltins") { Build::ViaBuiltins } else { Build::Direct };
         println!("replay request: {req}");
+        println!("impl : {}", call_impl(&b, &name, &arg, how).out);
         println!("model: {}", model.ask(&req));
-        println!("(re-run `./check C12` to regenerate; implementation side of `{name}` is re-executed by the generator at the recorded seed/case)");
+        if let Some(fr) = j["replay"]["flat_request"].as_str() {
+            let (n2, a2) = parse_request(fr).expect("flat request parses");
+            println!("flat request: {fr}");
+            println!("impl : {}", call_impl(&b, &n2, &a2, Build::Direct).out);
+            println!("model: {}", model.ask(fr));
+        }
         std::process::exit(0);
     }
 
+    let mut cx = Ctx {
+        b: &b,
+        model: &mut model,
+        ev: &mut ev,
+        modelled: Default::default(),
+        unmodelled: Default::default(),
+        stage: "corpus",
+    };
+
+    // 1. regression corpus (recorded correct answers; F1–F4 reproducers first)
+    let corpus = load_corpus();
+    for (_loc, name, arg, expected) in &corpus {
+        if b.get_implementation(name).is_none() {
+            cx.ev.hit("corpus:unregistered-name");
+            continue;
+        }
+        cx.check(name, arg, Build::Direct, Some(expected));
+        cx.check(name, arg, Build::ViaBuiltins, Some(expected));
+        cx.ev.hit("corpus-case");
+    }
+
+    // 2. generated stream per builtin
+    cx.stage = "generated";
+    let per_name = if boundary_only { 1500u64 } else { opts.tier.pick(450u64, 22000u64) };
     for name in &names {
         let (pspec, _rspec) = b.get_specs(name).unwrap();
         let pspec = pspec.clone();
+        let ns = name_seed(name);
         if name == "integer_sin" || name == "integer_cos" {
             // floats: only totality is checked
             for i in 0..200u64 {
-                let mut r = Rng::for_case(opts.seed ^ 0x51, i);
-                let a = Arg::Int(gen_int(&mut r, &pool));
-                let out = call_impl(&b, name, &a);
-                ev.case(&(name, &a), false);
+                let mut r = Rng::for_case(opts.seed ^ 0x51 ^ ns, i);
+                let a = Arg::Int(g.int(&mut r));
+                let out = call_impl(&b, name, &a, Build::Direct).out;
+                cx.ev.case(&(name, &a), false);
                 if out.starts_with("panic") {
-                    ev.violation(&signature_for(name, &a, &out), &format!("{name} panics on {}", render(&a)),
-                        json!({"request": format!("call {name} {}", render(&a)), "impl": out}), true);
+                    cx.report(name, &a, "panic", format!("{name} panics on {}", render(&a)), json!({"request": format!("call {name} {}", render(&a)), "impl": out}));
                 }
             }
-            ev.hit("float-builtin:totality-only");
+            cx.ev.hit("float-builtin:totality-only");
             continue;
         }
-        let mut name_seed = 0u64;
-        for c in name.bytes() {
-            name_seed = name_seed.wrapping_mul(131).wrapping_add(c as u64);
-        }
         for i in 0..per_name {
-            let mut r = Rng::for_case(opts.seed ^ name_seed, i);
-            let Some(a) = gen_arg(&pspec, &mut r, &pool) else {
-                ev.hit("skipped:ungeneratable-param");
+            let mut r = Rng::for_case(opts.seed ^ ns, i);
+            let pick = r.below(20);
+            let a = if pick < 15 {
+                match g.for_name(name, &mut r) {
+                    Some(a) => {
+                        cx.ev.hit("gen:domain-biased");
+                        Some(a)
+                    }
+                    None => {
+                        cx.ev.hit("gen:typespec");
+                        g.from_spec(&pspec, &mut r)
+                    }
+                }
+            } else if pick < 19 {
+                cx.ev.hit("gen:typespec");
+                g.from_spec(&pspec, &mut r)
+            } else {
+                cx.ev.hit("gen:malformed");
+                g.malformed(&pspec, &mut r)
+            };
+            let Some(a) = a else {
+                cx.ev.hit("skipped:ungeneratable-param");
                 break;
             };
-            let req = format!("call {name} {}", render(&a));
-            let impl_out = call_impl(&b, name, &a);
-            let model_out = model.ask(&req);
-            let impl_kind = impl_out.split_whitespace().next().unwrap_or("").to_string();
-            ev.hit(&format!("outcome:{impl_kind}"));
-            if model_out == "no-model" {
-                unmodelled.insert(name.clone());
-                ev.case(&(name, &a), false);
-                // totality oracle still applies
-                if impl_kind == "panic" {
-                    ev.violation(&signature_for(name, &a, &impl_out),
-                        &format!("{name} panics on {}: {impl_out}", render(&a)),
-                        json!({"request": req, "impl": impl_out, "model": model_out}), true);
-                }
+            cx.check_with_shapes(&g, name, &a, &mut r);
+        }
+    }
+
+    // 3. maximal binaries (lazy ropes, never flattened)
+    cx.stage = "maximal";
+    let big_cases = if boundary_only { 300u64 } else { opts.tier.pick(400u64, 6000u64) };
+    for i in 0..big_cases {
+        let mut r = Rng::for_case(opts.seed ^ 0xB16, i);
+        let (name, a) = g.big_case(&mut r);
+        if b.get_implementation(&name).is_none() {
+            continue;
+        }
+        count_arg(cx.ev, &a);
+        cx.ev.hit("maximal-case");
+        let how = if r.chance(1, 2) { Build::Direct } else { Build::ViaBuiltins };
+        cx.check(&name, &a, how, None);
+    }
+
+    // 4. the same call through compiled programs (sample)
+    cx.stage = "compiled";
+    if !boundary_only {
+        let full = qverif::run::builtins();
+        let n_compiled = opts.tier.pick(6u64, 60u64);
+        let mut to_run: Vec<(String, Arg)> = corpus.iter().map(|(_, n, a, _)| (n.clone(), a.clone())).collect();
+        for name in &names {
+            if name == "integer_sin" || name == "integer_cos" {
                 continue;
             }
-            modelled.insert(name.clone());
-            ev.case(&(name, &a), impl_kind == "ok" || impl_kind == "err");
-            ev.sample_sparse(ev.evaluations, 5000, || json!({"request": req, "impl": impl_out, "model": model_out}));
-            if impl_kind == "panic" {
-                ev.violation(&signature_for(name, &a, &impl_out),
-                    &format!("{name} panics on {}: {impl_out}", render(&a)),
-                    json!({"request": req, "impl": impl_out, "model": model_out}), true);
-            } else if impl_out != model_out {
-                // the model is the reference (C12.* theorems): a differing value is a wrong result
-                ev.violation(&signature_for(name, &a, &impl_out),
-                    &format!("{name} on {} returns `{impl_out}` but the reference model gives `{model_out}`", render(&a)),
-                    json!({"request": req, "impl": impl_out, "model": model_out}), true);
+            let (pspec, _) = b.get_specs(name).unwrap();
+            for i in 0..n_compiled {
+                let mut r = Rng::for_case(opts.seed ^ name_seed(name) ^ 0xC0, i);
+                let a = g.for_name(name, &mut r).or_else(|| g.from_spec(pspec, &mut r));
+                if let Some(a) = a {
+                    to_run.push((name.clone(), a));
+                }
+            }
+        }
+        for (name, a) in to_run {
+            let Some(out_c) = call_compiled(&full, &name, &a) else {
+                cx.ev.hit("compiled:skipped");
+                continue;
+            };
+            let out_d = call_impl(&b, &name, &a, Build::Direct).out;
+            cx.ev.hit("compiled:compared");
+            cx.ev.case(&("compiled", &name, &a), false);
+            if out_c != out_d {
+                let kind = if outcome_kind(&out_c) == "panic" { "panic" } else { "compiled-differs" };
+                cx.report(&name, &a, kind,
+                    format!("`{} __{name}__` evaluates to `{}` but the direct call gives `{}`", source_of(&a).unwrap_or_default(), clip(&out_c), clip(&out_d)),
+                    json!({"request": format!("call {name} {}", render(&a)), "compiled": out_c, "direct": out_d}));
             }
         }
     }
+
+    let modelled = cx.modelled.clone();
+    let unmodelled = cx.unmodelled.clone();
+    drop(cx);
+
+    // 5. thorough: the boundary stream again in a release build (overflow wraps silently there)
+    if opts.tier == qverif::Tier::Thorough && !boundary_only && !cfg!(not(debug_assertions)) {
+        match run_release(&opts) {
+            Ok((evals, violations, wall)) => {
+                ev.set_extra("release_profile_rerun", json!({"evaluations": evals, "violations": violations, "wall_s": wall}));
+                ev.evaluations += evals;
+            }
+            Err(e) => {
+                ev.violation("release-rerun kind=did-not-run", &format!("release-profile rerun did not complete: {e}"),
+                    json!({"broken": "release-profile rerun of the boundary stream", "detail": e}), false);
+            }
+        }
+    }
+
+    ev.set_extra("profile", json!(if cfg!(debug_assertions) { "debug (overflow checks on)" } else { "release (overflow wraps)" }));
     ev.set_extra("builtins_modelled", json!(modelled));
     ev.set_extra("builtins_without_model", json!(unmodelled));
     ev.set_extra("registry_names", json!(names.len()));
+    ev.set_extra("corpus_cases", json!(corpus.len()));
     ev.set_extra("model_requests", json!(model.requests));
     std::process::exit(ev.finish());
+}
+
+/// Build this binary with `--release` into the shared target directory and run its boundary stream.
+/// Violations found there are printed by the child (its `VIOLATION` lines are forwarded) and
+/// counted here.
+fn run_release(opts: &Opts) -> Result<(u64, u64, f64), String> {
+    let t0 = std::time::Instant::now();
+    let lean = qverif::lean_dir();
+    let harness = std::path::Path::new(&lean).parent().ok_or("no parent of lean dir")?.join("harness");
+    let st = std::process::Command::new("cargo")
+        .args(["build", "--offline", "--release", "--bin", "c12"])
+        .current_dir(&harness)
+        .env("CARGO_NET_OFFLINE", "true")
+        .output()
+        .map_err(|e| format!("cargo: {e}"))?;
+    if !st.status.success() {
+        return Err(format!("cargo build --release failed: {}", String::from_utf8_lossy(&st.stderr).chars().rev().take(1500).collect::<String>().chars().rev().collect::<String>()));
+    }
+    let target = std::env::var("CARGO_TARGET_DIR").unwrap_or_else(|_| "/verif/.cache/target".to_string());
+    let bin = format!("{target}/release/c12");
+    let out_json = format!("{}.release.json", opts.out.display());
+    let out = std::process::Command::new(&bin)
+        .args(["--tier", "thorough", "--seed", &opts.seed.to_string(), "--out", &out_json, "--model"])
+        .arg(opts.model.as_ref().unwrap())
+        .arg("--boundary-only")
+        .output()
+        .map_err(|e| format!("{bin}: {e}"))?;
+    let stdout = String::from_utf8_lossy(&out.stdout).to_string();
+    let j: serde_json::Value = serde_json::from_str(&std::fs::read_to_string(&out_json).map_err(|e| format!("no output from release run: {e}; stdout: {stdout}"))?).map_err(|e| e.to_string())?;
+    let evals = j["coverage"]["evaluations"].as_u64().unwrap_or(0);
+    let violations = j["violations"].as_u64().unwrap_or(0);
+    for l in stdout.lines() {
+        if l.starts_with("VIOLATION") || l.starts_with("# ") {
+            println!("# [release profile run]");
+            println!("{l}");
+        }
+    }
+    if violations > 0 {
+        return Err(format!("{violations} violation(s) in the release-profile run, see lines above and {out_json}"));
+    }
+    let _ = out.status;
+    Ok((evals, violations, t0.elapsed().as_secs_f64()))
 }
